@@ -4,21 +4,54 @@ from .common import H, TOPOS_QUICK, TOPOS_THOROUGH
 def c11(tier):
     runs = []
     if tier == "quick":
+        # representative subset of the template matrix; every run draws different cases (salt)
         for i, t in enumerate(TOPOS_QUICK):
-            runs.append(H("c11_graphs", "asan", 600, t, timeout_per_case=20, params=dict(salt=i)))
+            runs.append(H("c11_graphs", "asan", 500, t, timeout_per_case=20, params=dict(salt=i)))
     else:
+        # full (graph type x edge data x options) matrix under ASan/UBSan with asserts ...
         for i, t in enumerate(TOPOS_THOROUGH):
-            runs.append(H("c11_graphs", "asan", 1500, t, timeout_per_case=30, params=dict(salt=i)))
+            runs.append(H("c11_graphs_full", "asan", 2500, t, timeout_per_case=30, params=dict(salt=10 + i)))
+        # ... and the representative subset as optimised NDEBUG code (no UBSan: also reaches the content
+        # checks of the LC_Linear_Graph configurations whose misaligned edge records stop the asan runs)
+        for i, t in enumerate([None, "4,4,4,4"]):
+            runs.append(H("c11_graphs", "plain", 4000, t, timeout_per_case=20, params=dict(salt=20 + i)))
     return runs
 
 
 SPEC = dict(
     runs=c11,
-    technique="runtime monitoring (differential): every graph is enumerated completely through the public API and compared "
-              "with the generator's edge list; independent .gr writer; ASan/UBSan; virtual topologies; failpoint delays",
-    level_text="todo",
-    level_note="todo",
-    rule="todo",
-    require={"edges_checked": 1000},
-    assumptions=[],
+    technique="runtime monitoring (differential): each graph object is enumerated completely through its public API and "
+              "compared with the generator's edge list; independent .gr writer (ref/gr_codec.h); ASan+UBSan with asserts; "
+              "virtual topologies; seeded failpoint delays in the parallel builders and transposes",
+    level_text="Generated graphs (empty, single node, isolated nodes, self loops, parallel edges, paths, cycles, stars, grids, "
+               "power-law, random, dense, only-first/only-last node with edges, bipartite, mixed; up to 3000 nodes quick / 12000 "
+               "thorough; edge data void/uint32/uint64/float/12-byte struct; .gr versions 1 and 2) are written by an independent "
+               "writer or handed over as arrays, then built with 1..max active threads on 1-4 socket virtual topologies as "
+               "LC_CSR_Graph, LC_CSR_CSC_Graph, LC_CSR_Hypergraph, LC_Linear_Graph, LC_InlineEdge_Graph, LC_Morph_Graph, "
+               "LC_InOut_Graph (over CSR and Linear, symmetric and asymmetric) and LC_Adaptor_Graph with the no-lockable / "
+               "numa-blocked / out-of-line-lockable / with-id / compressed-pointer / file-edge-type options. Every node, "
+               "out-edge, destination and edge datum (file order), degrees, edge_begin/edge_end chaining, edges()/out_edges(), "
+               "in-edges, in-place transpose (twice), sortEdgesByDst/ByEdgeData/sortEdges, sortInEdges*, findEdge and "
+               "findEdgeSortedByDst answers, local_begin/local_end partitions and do_all(iterate(g)) coverage are compared "
+               "with the generator's edge list. Held on the inputs and schedules observed, not all of them.",
+    level_note="Trusts the reference generator/codec (self-tested, cross-checked against FileGraph both ways), x86-64 little "
+               "endian, and that virtual topologies (hook) exercise the same code as real multi-socket machines. LC_Morph_Graph "
+               "is compared up to isomorphism (exact when edge data are unique, else counts + colour-refinement signature).",
+    rule="case = (graph family, template configuration, edge-data type, operation, generated input graph, active threads, "
+         ".gr version, failpoint noise on/off) on one virtual topology; non-trivial iff at least one out- or in-edge of a real "
+         "graph object was compared with the generator's edge list; distinct by (family, operation, configuration, edge type, "
+         "input shape, thread class 1/mid/max, sockets, .gr version)",
+    require={"edges_checked": 100000, "in_edges_checked": 10000, "transposes": 20, "find_queries": 1000,
+             "sorted_lists": 1000, "local_range_threads": 500, "parallel_builds": 200, "multi_socket_cases": 50,
+             "v2_files": 20, "empty_graph_cases": 5},
+    assumptions=[
+        "node identity of LC_Linear/LC_InlineEdge graphs is the position in begin()..end() (the only identity the API offers)",
+        "LC_Morph_Graph exposes no node identity: compared up to isomorphism",
+        "version-2 .gr inputs have an even edge count or no edge data, so the library's inconsistent v2 padding (C12) cannot matter",
+        "symmetric mode of LC_InOut_Graph is only given symmetric inputs (its documented precondition); findEdgeSortedByDst only sorted lists",
+        "in-edges of a by-reference LC_CSR_CSC_Graph are compared before any later re-ordering of the out-edges",
+        "readUnweighted / FileEdgeTy=void / EdgeTy=void-with-file-data cases compare the structure only",
+        "per-thread local ranges are checked with the thread count the graph was built with",
+        "virtual topologies come from the GALOIS_VERIF_TOPO hook; threads are not bound",
+    ],
 )
